@@ -128,7 +128,7 @@ func stubTable() map[string]stubFn {
 		if c, ok := t.SConst(); ok {
 			return strconv.Itoa(int(c))
 		}
-		return &SymStr{tag: "itoa", args: []Value{t}}
+		return symSeq([]strPart{{t: t, signed: true, verb: 'd'}})
 	}
 	m["strconv.Atoi"] = func(in *Interp, fr *frame, args []Value) Value {
 		n, err := strconv.Atoi(mustStr(fr, args[0], "Atoi"))
@@ -146,7 +146,7 @@ func stubTable() map[string]stubFn {
 		return in.sprint(fr, args[0].(Slice), "")
 	}
 	m["fmt.Sprintln"] = func(in *Interp, fr *frame, args []Value) Value {
-		return in.sprint(fr, args[0].(Slice), " ") + "\n"
+		return symConcat(in.sprint(fr, args[0].(Slice), " "), "\n")
 	}
 	m["fmt.Errorf"] = func(in *Interp, fr *frame, args []Value) Value {
 		return in.errorf(fr, args[0], args[1].(Slice))
@@ -154,8 +154,62 @@ func stubTable() map[string]stubFn {
 	m["fmt.Println"] = func(in *Interp, fr *frame, args []Value) Value { return Tuple{BV(wordBits, 0), Iface{}} }
 	m["fmt.Printf"] = m["fmt.Println"]
 	m["fmt.Print"] = m["fmt.Println"]
-	m["fmt.Fprintf"] = m["fmt.Println"]
-	m["fmt.Fprintln"] = m["fmt.Println"]
+	m["fmt.Fprintf"] = func(in *Interp, fr *frame, args []Value) Value {
+		in.writeTo(fr, args[0], in.sprintf(fr, args[1], args[2].(Slice)))
+		return Tuple{BV(wordBits, 0), Iface{}}
+	}
+	m["fmt.Fprintln"] = func(in *Interp, fr *frame, args []Value) Value {
+		in.writeTo(fr, args[0], symConcat(in.sprint(fr, args[1].(Slice), " "), "\n"))
+		return Tuple{BV(wordBits, 0), Iface{}}
+	}
+	m["fmt.Fprint"] = func(in *Interp, fr *frame, args []Value) Value {
+		in.writeTo(fr, args[0], in.sprint(fr, args[1].(Slice), ""))
+		return Tuple{BV(wordBits, 0), Iface{}}
+	}
+	// bytes.Buffer / strings.Builder as string accumulators (contents may be symbolic)
+	for _, recv := range []string{"(*bytes.Buffer).", "(*strings.Builder)."} {
+		m[recv+"WriteString"] = func(in *Interp, fr *frame, args []Value) Value {
+			in.bufAppend(fr, args[0], args[1])
+			return Tuple{BV(wordBits, 0), Iface{}}
+		}
+		m[recv+"WriteByte"] = func(in *Interp, fr *frame, args []Value) Value {
+			c, ok := args[1].(*Term).Const()
+			if !ok {
+				panic(pathAbort{"unsupported: WriteByte of symbolic byte"})
+			}
+			in.bufAppend(fr, args[0], string([]byte{byte(c)}))
+			return Iface{}
+		}
+		m[recv+"WriteRune"] = func(in *Interp, fr *frame, args []Value) Value {
+			c, ok := args[1].(*Term).Const()
+			if !ok {
+				panic(pathAbort{"unsupported: WriteRune of symbolic rune"})
+			}
+			in.bufAppend(fr, args[0], string(rune(c)))
+			return Tuple{BV(wordBits, 0), Iface{}}
+		}
+		m[recv+"Write"] = func(in *Interp, fr *frame, args []Value) Value {
+			in.bufAppend(fr, args[0], in.convert(fr, byteSliceT, types.Typ[types.String], args[1]))
+			return Tuple{BV(wordBits, 0), Iface{}}
+		}
+		m[recv+"String"] = func(in *Interp, fr *frame, args []Value) Value {
+			if isNilPtr(args[0]) {
+				return "<nil>"
+			}
+			return in.bufGet(args[0])
+		}
+		m[recv+"Len"] = func(in *Interp, fr *frame, args []Value) Value {
+			s, ok := in.bufGet(args[0]).(string)
+			if !ok {
+				panic(pathAbort{"unsupported: Len of symbolic buffer"})
+			}
+			return BV(wordBits, uint64(len(s)))
+		}
+		m[recv+"Reset"] = func(in *Interp, fr *frame, args []Value) Value {
+			in.path.ghost[bufKey(args[0])] = ""
+			return nil
+		}
+	}
 	// ---- errors (Is needs reflectlite) ----
 	m["errors.Is"] = func(in *Interp, fr *frame, args []Value) Value {
 		err, target := args[0].(Iface), args[1].(Iface)
@@ -163,7 +217,7 @@ func stubTable() map[string]stubFn {
 			if types.Comparable(err.t) && in.equal(fr, err, target) == TrueT {
 				return TrueT
 			}
-			u := in.prog.LookupMethod(err.t, nil, "Unwrap")
+			u := in.lookupMethod(err.t, nil, "Unwrap")
 			if u == nil {
 				break
 			}
@@ -306,6 +360,33 @@ func stubTable() map[string]stubFn {
 	return m
 }
 
+var byteSliceT = types.NewSlice(types.Typ[types.Uint8])
+
+func bufKey(p Value) string { return fmt.Sprintf("buf:%p", ptrCell(p)) }
+
+func (in *Interp) bufGet(p Value) Value {
+	if v, ok := in.path.ghost[bufKey(p)]; ok {
+		return v
+	}
+	return ""
+}
+
+func (in *Interp) bufAppend(fr *frame, p Value, s Value) {
+	in.path.ghost[bufKey(p)] = symConcat(in.bufGet(p), s)
+}
+
+// writeTo: fmt.Fprint* into a buffer-like writer.
+func (in *Interp) writeTo(fr *frame, w Value, s Value) {
+	ifc, ok := w.(Iface)
+	if !ok || ifc.t == nil {
+		return
+	}
+	switch ifc.t.String() {
+	case "*bytes.Buffer", "*strings.Builder":
+		in.bufAppend(fr, ifc.v, s)
+	}
+}
+
 // RFunc models *runtime.Func
 type RFunc struct {
 	pc *Term
@@ -439,101 +520,107 @@ func msgString(v Value) string {
 
 // ---- mini formatter ----
 
-func (in *Interp) fmtArg(fr *frame, v Value, verb byte) string {
+type fmtFlags struct {
+	plus, sharp bool
+}
+
+// fmtArg renders one operand as string parts.
+func (in *Interp) fmtArg(fr *frame, v Value, verb byte, fl fmtFlags) []strPart {
+	lit := func(s string) []strPart { return []strPart{{lit: s}} }
 	switch x := v.(type) {
 	case Iface:
 		if x.t == nil {
-			return "<nil>"
+			return lit("<nil>")
 		}
-		// error / Stringer
 		if verb == 'v' || verb == 's' || verb == 'w' {
-			if m := in.prog.LookupMethod(x.t, nil, "Error"); m != nil && m.Signature.Params().Len() == 0 {
-				if in.interpretable(m) {
+			for _, mn := range []string{"Error", "String"} {
+				m := in.lookupMethod(x.t, nil, mn)
+				if m != nil && m.Signature.Params().Len() == 0 && m.Signature.Results().Len() == 1 &&
+					isString(m.Signature.Results().At(0).Type()) && in.interpretable(m) {
 					r := in.callFn(fr, m, []Value{x.v}, nil)
-					if s, ok := r.(string); ok {
-						return s
+					if ps := partsOf(r); ps != nil {
+						return ps
 					}
-					return "<sym>"
-				}
-			}
-			if m := in.prog.LookupMethod(x.t, nil, "String"); m != nil && m.Signature.Params().Len() == 0 && m.Signature.Results().Len() == 1 {
-				if in.interpretable(m) && isString(m.Signature.Results().At(0).Type()) {
-					r := in.callFn(fr, m, []Value{x.v}, nil)
-					if s, ok := r.(string); ok {
-						return s
-					}
-					return "<sym>"
+					return lit("<symstr>")
 				}
 			}
 		}
 		_, signed, isInt := intWidth(x.t)
 		if t, ok := x.v.(*Term); ok && isInt {
-			if c, isC := t.Const(); isC {
-				if t.w == 0 {
-					return strconv.FormatBool(c == 1)
+			if t.w == 0 {
+				if c, isC := t.Const(); isC {
+					return lit(strconv.FormatBool(c == 1))
 				}
-				switch verb {
-				case 'x':
-					return strconv.FormatUint(c, 16)
-				case 'c':
-					return string(rune(c))
-				}
-				if signed {
-					sc, _ := t.SConst()
-					return strconv.FormatInt(sc, 10)
-				}
-				return strconv.FormatUint(c, 10)
+				return lit("<symbool>")
 			}
-			return "<sym>"
+			vb := verb
+			if vb == 'c' {
+				if c, isC := t.Const(); isC {
+					return lit(string(rune(c)))
+				}
+			}
+			if vb != 'x' {
+				vb = 'd'
+			}
+			return []strPart{{t: t, signed: signed, verb: vb, plus: fl.plus, sharp: fl.sharp}}
 		}
-		return in.fmtArg(fr, x.v, verb)
+		return in.fmtArg(fr, x.v, verb, fl)
 	case string:
 		if verb == 'q' {
-			return strconv.Quote(x)
+			return lit(strconv.Quote(x))
 		}
-		return x
+		return lit(x)
 	case *SymStr:
-		return "<symstr>"
-	case *Term:
-		if c, ok := x.Const(); ok {
-			if verb == 'x' {
-				return strconv.FormatUint(c, 16)
-			}
-			return strconv.FormatUint(c, 10)
+		if ps := partsOf(x); ps != nil {
+			return ps
 		}
-		return "<sym>"
+		return lit("<symstr>")
+	case *Term:
+		vb := verb
+		if vb != 'x' {
+			vb = 'd'
+		}
+		if x.w == 0 {
+			return lit("<bool>")
+		}
+		return []strPart{{t: x, verb: vb, plus: fl.plus, sharp: fl.sharp}}
 	case *RType:
-		return x.String()
+		return lit(x.String())
 	case *RValue:
-		return "<reflect.Value>"
+		return lit("<reflect.Value>")
 	case nil:
-		return "<nil>"
+		return lit("<nil>")
 	case *FuncV:
-		return "<func>"
+		return lit("<func>")
 	case *Value:
 		if x == nil {
-			return "<nil>"
+			return lit("<nil>")
 		}
-		return "<ptr>"
+		return lit("<ptr>")
 	case Slice:
-		var sb strings.Builder
-		sb.WriteByte('[')
+		ps := lit("[")
 		for i := 0; i < x.len && i < 16; i++ {
 			if i > 0 {
-				sb.WriteByte(' ')
+				ps = append(ps, strPart{lit: " "})
 			}
-			sb.WriteString(in.fmtArg(fr, in.sliceGet(fr, x, i), verb))
+			ps = append(ps, in.fmtArg(fr, in.sliceGet(fr, x, i), verb, fl)...)
 		}
-		sb.WriteByte(']')
-		return sb.String()
+		return append(ps, strPart{lit: "]"})
 	case FloatV:
-		return strconv.FormatFloat(x.v, 'g', -1, 64)
+		return lit(strconv.FormatFloat(x.v, 'g', -1, 64))
 	}
-	return fmt.Sprintf("<%T>", v)
+	return lit(fmt.Sprintf("<%T>", v))
 }
 
 func (in *Interp) sprintfStr(fr *frame, f string, args Slice) Value {
+	var parts []strPart
 	var sb strings.Builder
+	flush := func() {
+		if sb.Len() > 0 {
+			parts = append(parts, strPart{lit: sb.String()})
+			sb.Reset()
+		}
+	}
 	argi := 0
 	for i := 0; i < len(f); i++ {
 		if f[i] != '%' {
@@ -541,7 +628,14 @@ func (in *Interp) sprintfStr(fr *frame, f string, args Slice) Value {
 			continue
 		}
 		i++
+		var fl fmtFlags
 		for i < len(f) && strings.IndexByte("+-# 0123456789.", f[i]) >= 0 {
+			if f[i] == '+' {
+				fl.plus = true
+			}
+			if f[i] == '#' {
+				fl.sharp = true
+			}
 			i++
 		}
 		if i >= len(f) {
@@ -551,34 +645,39 @@ func (in *Interp) sprintfStr(fr *frame, f string, args Slice) Value {
 			sb.WriteByte('%')
 			continue
 		}
+		flush()
 		if argi < args.len {
-			sb.WriteString(in.fmtArg(fr, in.sliceGet(fr, args, argi), f[i]))
+			parts = append(parts, in.fmtArg(fr, in.sliceGet(fr, args, argi), f[i], fl)...)
 		} else {
-			sb.WriteString("%!" + string(f[i]) + "(MISSING)")
+			parts = append(parts, strPart{lit: "%!" + string(f[i]) + "(MISSING)"})
 		}
 		argi++
 	}
-	return sb.String()
+	flush()
+	return symSeq(parts)
 }
 
 func (in *Interp) sprintf(fr *frame, format Value, args Slice) Value {
 	return in.sprintfStr(fr, mustStr(fr, format, "Sprintf format"), args)
 }
 
-func (in *Interp) sprint(fr *frame, args Slice, sep string) string {
-	var sb strings.Builder
+func (in *Interp) sprint(fr *frame, args Slice, sep string) Value {
+	var parts []strPart
 	for i := 0; i < args.len; i++ {
 		if i > 0 {
-			sb.WriteString(sep)
+			parts = append(parts, strPart{lit: sep})
 		}
-		sb.WriteString(in.fmtArg(fr, in.sliceGet(fr, args, i), 'v'))
+		parts = append(parts, in.fmtArg(fr, in.sliceGet(fr, args, i), 'v', fmtFlags{})...)
 	}
-	return sb.String()
+	return symSeq(parts)
 }
 
 // ---- tagged symbolic strings ----
 
 func (in *Interp) symStrEq(fr *frame, s *SymStr, c string) *Term {
+	if s.tag == "seq" {
+		return in.seqEq(fr, s, c)
+	}
 	if h, ok := in.symStrHooks[s.tag]; ok {
 		return h.eq(in, fr, s, c)
 	}
@@ -596,6 +695,9 @@ func (in *Interp) symStrEq(fr *frame, s *SymStr, c string) *Term {
 }
 
 func (in *Interp) symStrHasPrefix(fr *frame, s *SymStr, c string) *Term {
+	if s.tag == "seq" {
+		return in.seqHasPrefix(fr, s, c)
+	}
 	if h, ok := in.symStrHooks[s.tag]; ok && h.hasPrefix != nil {
 		return h.hasPrefix(in, fr, s, c)
 	}
@@ -603,6 +705,9 @@ func (in *Interp) symStrHasPrefix(fr *frame, s *SymStr, c string) *Term {
 }
 
 func (in *Interp) symStrContains(fr *frame, s *SymStr, c string) *Term {
+	if s.tag == "seq" {
+		return in.seqContains(fr, s, c)
+	}
 	if h, ok := in.symStrHooks[s.tag]; ok && h.contains != nil {
 		return h.contains(in, fr, s, c)
 	}
